@@ -39,6 +39,7 @@ from vf.spec import (
 MAX_LIST_LEN = 3
 MAX_DEPTH = 3                          # of every enumerated expression (leaf = depth 1)
 BFS_DEPTH = {"quick": 3, "thorough": 4}
+BFS_DEPTH_ARRAYS = {"quick": 3, "thorough": 3}      # the mutable-value environments
 MINIMISE_BUDGET = 400                  # candidate inputs tried per failing list
 BOX = (                                # (x, y): positive, so no expression of the pool raises
     (2, 3), (3, 5), (Fraction(1, 2), Fraction(3, 2)), (Fraction(5, 2), 2), (3, Fraction(1, 3)))
@@ -291,6 +292,9 @@ def make_env(specs, xy, counter):
 
 
 def same_value(a, b):
+    if isinstance(a, np.ndarray) or isinstance(b, np.ndarray):
+        return (isinstance(a, np.ndarray) and isinstance(b, np.ndarray) and a.shape == b.shape
+                and bool(np.allclose(a, b, rtol=REL_TOL, atol=1e-12)))
     inexact = (float, complex)
     if isinstance(a, inexact) or isinstance(b, inexact):
         try:
@@ -830,6 +834,19 @@ SCENARIOS = {
     "hand-nested": ("asis", [
         N1, Prod(N1, N1), CSE(Prod(X, Y)), Quot(N1, CSE(Prod(X, Y), "q")), Call(F, N1)]),
 }
+# wrappers whose child evaluates to a boundary value (None / falsy / empty): g returns the value,
+# h accepts anything and returns 1 + its number of arguments; both record their calls
+G, H = V("g"), V("h")
+WG = CSE(Call(G, X))
+BOUNDARY_RESULTS = {"none": None, "zero": 0, "false": False, "empty": ()}
+for _k in BOUNDARY_RESULTS:
+    SCENARIOS[f"boundary-{_k}"] = ("asis", [
+        WG, Call(H, WG, WG), Sum(Call(H, WG), Call(H, CSE(Call(G, X), "p")), Y)])
+# value kinds of the environment: exact numbers, or mutable values with in-place operators
+# (numpy float arrays; every environment gets fresh array objects)
+ENVSETS = ("numbers", "arrays")
+ARRAY_SCENARIOS_QUICK = ("tagged", "hand-placed", "hand-nested")     # thorough: every scenario
+ENVS_ARRAYS = (((2.0, 0.5), (3.0, 4.0)), ((1.0, 3.0), (0.5, 2.0)), ((4.0, 1.0), (1.0, 0.25)))
 # instance k gets ENVS_B[k % 4]; the first one makes the shared x + y evaluate to 0 (a falsy
 # cached value must still be a cache hit)
 ENVS_B = ((3, -3), (2, 3), (3, 5), (Fraction(1, 2), Fraction(3, 2)))
@@ -934,7 +951,37 @@ def canon_b(hist):
     return tuple((h, tuple(xs)) for h, xs in segs)
 
 
-def explore_histories(name, first, depth, res):
+def freeze(v):
+    if isinstance(v, np.ndarray):
+        return ("nd", tuple(v.tolist()))
+    if isinstance(v, tuple):
+        return tuple(freeze(c) for c in v)
+    return v
+
+
+def history_env(name, specs, envset, n_inst, counter):
+    """A fresh environment for instance number *n_inst* of a scenario."""
+    if envset == "arrays":
+        a, b = ENVS_ARRAYS[n_inst % len(ENVS_ARRAYS)]
+        xy = (np.array(a), np.array(b))
+    else:
+        xy = ENVS_B[n_inst % len(ENVS_B)]
+    env = make_env(specs, xy, counter)
+    if name.startswith("boundary-"):
+        value = BOUNDARY_RESULTS[name[len("boundary-"):]]
+
+        def g(*a):
+            counter.calls.append(("g", a, ()))
+            return value
+
+        def h(*a):
+            counter.calls.append(("h", a, ()))
+            return 1 + len(a)
+        env["g"], env["h"] = g, h
+    return env, xy
+
+
+def explore_histories(name, first, depth, res, envset="numbers"):
     import pymbolic.primitives as p
     specs, exprs = scenario_exprs(name)
     especs = [to_spec(e) for e in exprs]
@@ -951,31 +998,55 @@ def explore_histories(name, first, depth, res):
     def fmt(h):
         return "[" + "; ".join(f"{how}:{show(especs[i])}" for i, how in h) + "]"
 
+    period = len(ENVS_ARRAYS) if envset == "arrays" else len(ENVS_B)
+    want_memo, model_memo = {}, {}
+
+    def want_of(i, n):
+        """Reference outcome of input i in the environment of instance n (pure: memoised)."""
+        k = (i, n % period)
+        if k not in want_memo:
+            want_memo[k] = refsem.outcome(refsem.evaluate, specs[i],
+                                          history_env(name, specs, envset, n, Counter())[0])
+        return want_memo[k]
+
+    def model_of(n, seq):
+        """Node and call counts of the once-per-wrapper reference model after evaluating the
+        expressions *seq* on one model instance in the environment of instance n (memoised)."""
+        k = (n % period, seq)
+        if k not in model_memo:
+            rcounter = Counter()
+            rlog = []
+            ref = refsem.Ref(history_env(name, specs, envset, n, rcounter)[0],
+                             hook=lambda s, v: rlog.append(s), cse_once=True)
+            for i in seq:
+                refsem.outcome(ref, especs[i])
+            model_memo[k] = (Multiset(rlog),
+                             Multiset((f, freeze(a)) for f, a, _ in rcounter.calls))
+        return model_memo[k]
+
     def step(hist):
         inst = None
         n_inst = 0
         for i, how in hist:
             if how != "reuse" or inst is None:
                 kind = how if how != "reuse" else "plain"
-                xy = ENVS_B[n_inst % len(ENVS_B)]
-                n_inst += 1
                 counter = Counter()
-                inst = instrumented(kind)(make_env(specs, xy, counter))
+                env, xy = history_env(name, specs, envset, n_inst, counter)
+                inst = instrumented(kind)(env)
                 inst.vf_log = []
-                rcounter = Counter()
-                rlog = []
-                ref = refsem.Ref(make_env(specs, xy, rcounter),
-                                 hook=lambda s, v, rlog=rlog: rlog.append(s), cse_once=True)
+                this_inst = n_inst
+                seq = []
+                n_inst += 1
             got = refsem.outcome(inst, exprs[i])
-            want = refsem.outcome(refsem.evaluate, specs[i], make_env(specs, xy, Counter()))
-            refsem.outcome(ref, especs[i])
+            seq.append(i)
             res.evals += 1
+        want = want_of(i, this_inst)
+        model, cm = model_of(this_inst, tuple(seq))
         if want[0] != "ok" or got[0] != "ok" or not same_value(want[1], got[1]):
             return (("value", f"after {fmt(hist[:-1])}, {fmt(hist[-1:])} with x, y = {xy} "
                      f"returns {refsem.show_outcome(got)}; reference value "
                      f"{refsem.show_outcome(want)}"), None)
         impl = Multiset(key_of(e) for e in inst.vf_log if isinstance(e, p.Expression))
-        model = Multiset(rlog)
         for k in sorted(impl, key=repr):
             if k[0] in LISTED and impl[k] > model[k]:
                 return (("recomputed", f"in {fmt(hist)} the current instance computes "
@@ -985,8 +1056,7 @@ def explore_histories(name, first, depth, res):
             if k[0] == WRAP and impl[k[1]] < 1 and k[1][0] in LISTED:
                 return (("never-computed", f"in {fmt(hist)} the current instance never "
                          f"computes the child of {show(k)}"), None)
-        ci = Multiset((n, a) for n, a, _ in counter.calls)
-        cm = Multiset((n, a) for n, a, _ in rcounter.calls)
+        ci = Multiset((n, freeze(a)) for n, a, _ in counter.calls)
         if ci - cm:
             return (("recomputed-call", f"in {fmt(hist)} the environment's functions are called "
                      f"{dict(ci)}; the once-only model calls {dict(cm)}"), None)
@@ -1006,10 +1076,11 @@ def explore_histories(name, first, depth, res):
         res.count("transitions", ex.transitions + 1)
         res.count("histories", ex.transitions + 1)
         res.count("max_depth", ex.max_depth)
-        res.keys.extend((name, first, n) for n in range(ex.states))
+        res.keys.extend((name, envset, first, n) for n in range(ex.states))
         ex_viol = ex.violations
     for hist, kind, detail in ex_viol:
-        sig = f"history:{kind}|{name}|" + ";".join(f"{how}:{show(especs[i])}" for i, how in hist)
+        sig = f"history:{kind}|{name}" + ("" if envset == "numbers" else f"/{envset}") + "|" \
+            + ";".join(f"{how}:{show(especs[i])}" for i, how in hist)
         res.fail(f"history:{kind}", sig, detail)
 
 # }}}
@@ -1031,7 +1102,10 @@ class C12(Check):
         "prefix x scope, and every wrapper-containing input again with scope strings that are "
         "equal to but not the same object as the cse_scope constants (wrapper pickled and "
         "unpickled / scope argument built at run time / both). Engine B: BFS over evaluator "
-        "histories (6 scenarios x every first "
+        "histories (6 scenarios, plus 4 scenarios whose wrapped call returns a boundary value "
+        "-- None, 0, False, () --, x 2 kinds of environment values: exact numbers and mutable "
+        "numpy float arrays with in-place operators (quick: 3 of the scenarios; depth 3 in both "
+        "tiers), x every first "
         "operation; menu = expression i on the reused instance or on a fresh instance of one of "
         "4 evaluator kinds: stock plain, stock memoizing, a user subclass of EvaluationMapper "
         "whose __init__ only stores the context, a minimal evaluator built on "
@@ -1053,7 +1127,9 @@ class C12(Check):
         "Engine B canon: per instance the sequence of evaluated expressions with exact repeats "
         "dropped; sound if a repeat leaves the instance's tables unchanged, observed on every "
         "such transition",
-        "the evaluator's context is not mutated between evaluations on one instance",
+        "the evaluator's context is not mutated by the caller between evaluations on one instance "
+        "(every instance, and its reference model, gets fresh value objects)",
+        "array-valued results are compared with numpy.allclose (rtol 1e-9)",
     ]
     chunk = 6
     item_timeout = 600
@@ -1095,9 +1171,15 @@ class C12(Check):
 
         def histories():
             for name, (_, specs) in SCENARIOS.items():
-                for i in range(len(specs)):
-                    for kind in KINDS_B:
-                        yield ("B", name, (i, kind))
+                for envset in ENVSETS:
+                    if envset == "arrays" and name.startswith("boundary-"):
+                        continue                    # no arithmetic on x, y in these scenarios
+                    if envset == "arrays" and tier == "quick" \
+                            and name not in ARRAY_SCENARIOS_QUICK:
+                        continue
+                    for i in range(len(specs)):
+                        for kind in KINDS_B:
+                            yield ("B", name, (i, kind), envset)
 
         return [("histories", histories), ("helpers", helpers), ("wrapped", wrapped),
                 ("pairs", lists), ("triples", triples)]
@@ -1108,11 +1190,12 @@ class C12(Check):
             check_helper(item, r)
             return r
         if item[0] == "B":
-            depth = BFS_DEPTH[item[3]] if len(item) > 3 else BFS_DEPTH[tier]
-            explore_histories(item[1], tuple(item[2]), depth, r)
+            envset = item[3] if len(item) > 3 else "numbers"
+            wtier = item[4] if len(item) > 4 else tier   # a witness carries the tier it was found in
+            depth = (BFS_DEPTH_ARRAYS if envset == "arrays" else BFS_DEPTH)[wtier]
+            explore_histories(item[1], tuple(item[2]), depth, r, envset)
             for f in r.fails:
-                f["witness"] = ("B", item[1], item[2], "thorough" if depth == BFS_DEPTH["thorough"]
-                                else "quick")
+                f["witness"] = ("B", item[1], item[2], envset, wtier)
             return r
         specs = tuple(item[1])
         only = item[2] if len(item) > 2 else None        # a minimised witness names its tagger
